@@ -459,3 +459,141 @@ _rect_slack_shape(2, 2)
 _rect_slack_shape(3, 3)
 _rect_slack_shape(2, 3)
 _rect_slack_shape(3, 4)
+
+
+@task("C06", "VOGP_AD.run_one_step")
+def _vogp_ad_step(t):
+    """Composition over the phase contracts; evaluate_refine by the contract proved in C06/VOGP_AD.evaluate_refine
+    (three outcomes: sample one active design / replace a refined node of S / of P by fresh children)."""
+    name = "VOGP_AD"
+    A = AlgoState(t, name, with_U=False)
+    install_step_contracts(t, A, name)
+    I = z3.IntSort()
+    refined = z3.Int("refined")
+    kids = z3.Const("kids", SM.SETSORT)
+    t.assume(z3.ForAll([e_], z3.Implies(z3.Select(kids, e_), e_ >= A.N)), z3.Exists([e_], z3.Select(kids, e_)))
+
+    def c_eval_refine(ex, st, o, args, kwargs, node):
+        from pyvc.symexec import Paths
+        st.roots.setdefault("calls", []).append("evaluate_refine")
+        S, P = o.fields["S"].mem, o.fields["P"].mem
+        out = []
+        s1 = st.clone()
+        s2 = st.clone()
+        # (a) sample
+        n = SM.fresh_const(ex.ctx, "rows", I)
+        st.pc.append(n >= 0)
+        o.fields["sample_count"] = V.Z(o.fields["sample_count"]) + n
+        out.append((st, None))
+        # (b) refine a node of S, (c) of P
+        from pyvc.symexec import find_obj
+        for s_, field, src in ((s1, "S", S), (s2, "P", P)):
+            oo = find_obj(s_, A.obj.oid)
+            s_.pc.append(z3.Select(src, refined))
+            _set(ex, s_, oo, field, lambda x, src=src: z3.Or(z3.And(z3.Select(src, x), x != refined), z3.Select(kids, x)), field + "_ref")
+            s_.roots["refined"] = True
+            out.append((s_, None))
+        return Paths(out)
+    t.contracts[ALGOS[name] + "::VOGP_AD.evaluate_refine"] = c_eval_refine
+    paths = t.run(ALGOS[name], "VOGP_AD.run_one_step", [], self_val=A.obj, setmode=True)
+    t.must_fail()
+    t.no_raise(paths)
+    empty0 = A.S0 == z3.EmptySet(I)
+    old = lambda x: z3.And(x >= 0, x < A.N)
+
+    def idle(p):
+        S1, P1, U1, o = A.final(p)
+        return z3.Implies(empty0, z3.And(same_set(S1, A.S0), same_set(P1, A.P0), V.Z(o.fields["round"]) == A.round0,
+                                         V.Z(o.fields["sample_count"]) == A.count0, V.Bz(p.value) == True, z3.BoolVal(not p.st.roots.get("calls"))))
+    t.prove_paths("after_completion_a_step_changes_nothing", paths, idle)
+
+    def active(p):
+        S1, P1, U1, o = A.final(p)
+        was_ref = bool(p.st.roots.get("refined"))
+        g = [z3.ForAll([e_], z3.Implies(z3.And(z3.Select(S1, e_), old(e_)), z3.Select(A.S0, e_))),        # among existing nodes S only shrinks
+             z3.ForAll([e_], z3.Implies(z3.And(z3.Select(S1, e_), z3.Not(old(e_))), z3.Select(kids, e_))),  # anything new is a child of the refined node
+             z3.ForAll([e_], z3.Implies(z3.Select(A.P0, e_), z3.Or(z3.Select(P1, e_), z3.And(z3.BoolVal(was_ref), e_ == refined)))),  # P keeps its members (except a refined node)
+             disjoint(S1, P1), V.Z(o.fields["round"]) == A.round0 + 1, V.Bz(p.value) == (S1 == z3.EmptySet(I))]
+        if was_ref:
+            g.append(z3.And(z3.Not(z3.Select(S1, refined)), z3.Not(z3.Select(P1, refined))))    # the refined node itself is gone
+        return z3.Implies(z3.Not(empty0), z3.And(*g))
+    t.prove_paths("active_step:S_shrinks_up_to_children_of_the_refined_node_P_keeps_members_disjoint_round_flag", paths, active)
+
+    def order(p):
+        calls = p.st.roots.get("calls") or []
+        if not calls:
+            return empty0
+        base = ["compute_beta", "modeling", "discarding", "promote"]
+        if calls == base:
+            return True
+        if calls == base + ["evaluate_refine"]:
+            return True
+        return False
+    t.prove_paths("phases_in_order", paths, order)
+    t.implicit()
+
+
+class ParetoOrderStub:
+    def __init__(self):
+        self.calls = []
+
+    def getattr(self, ex, st, name):
+        return self
+
+    def call(self, ex, st, args, kwargs, node):
+        st.roots.setdefault("calls", []).append(("get_pareto_set", args[0]))
+        return Opaque("ParetoIdx", z3.Const("pareto!%d" % V.fresh_id(), z3.DeclareSort("ParetoIdx")))
+
+    def clone(self, memo):
+        return self
+
+
+@task("C06", "DecoupledGP.run_one_step")
+def _decoupled_step(t):
+    """Budgeted, non-eliminating: done iff total cost reached the budget; no-op after completion; one evaluating and one
+    pareto_updating per active step; P = get_pareto_set of the model's predictive means at all points."""
+    from pyvc.harness import cls_ref
+    from pyvc.values import SObj
+    cost0, budget = z3.Real("total_cost0"), z3.Real("cost_budget")
+    round0 = z3.Int("round0")
+    t.assume(cost0 >= 0, round0 >= 0)
+    pts = Opaque("Points", z3.Const("points", z3.DeclareSort("Points")))
+    mu = Opaque("Means", z3.Const("mu", z3.DeclareSort("Means")))
+
+    class Model:
+        def getattr(self, ex, st, name):
+            return self
+
+        def call(self, ex, st, args, kwargs, node):
+            st.roots.setdefault("calls", []).append(("predict", args[0]))
+            return (mu, Opaque("Covs", z3.Const("cov", z3.DeclareSort("Covs"))))
+
+        def clone(self, memo):
+            return self
+    obj = SObj(cls_ref("vopy/algorithms/decoupled.py", "DecoupledGP"),
+               {"total_cost": cost0, "cost_budget": budget, "round": round0, "sample_count": z3.Int("sc0"), "P": Opaque("ParetoIdx", z3.Const("P0", z3.DeclareSort("ParetoIdx"))),
+                "model": Model(), "points": pts, "order": ParetoOrderStub()})
+
+    def c_evaluating(ex, st, o, args, kwargs, node):
+        st.roots.setdefault("calls", []).append(("evaluating",))
+        c = SM.fresh_const(ex.ctx, "cost", z3.RealSort())
+        st.pc.append(c >= 0)
+        o.fields["total_cost"] = V.R(o.fields["total_cost"]) + c
+        return [(st, None)]
+    t.contracts["vopy/algorithms/decoupled.py::DecoupledGP.evaluating"] = c_evaluating
+    paths = t.run("vopy/algorithms/decoupled.py", "DecoupledGP.run_one_step", [], self_val=obj)
+    t.must_fail()
+    t.no_raise(paths)
+    from pyvc.symexec import find_obj
+    done0 = cost0 >= budget
+
+    def goal(p):
+        o = find_obj(p.st, obj.oid)
+        calls = p.st.roots.get("calls") or []
+        idle = z3.And(V.R(o.fields["total_cost"]) == cost0, V.Z(o.fields["round"]) == round0, V.Bz(p.value) == True, z3.BoolVal(not calls))
+        kinds = [c[0] for c in calls]
+        act = z3.And(V.Z(o.fields["round"]) == round0 + 1, V.Bz(p.value) == (V.R(o.fields["total_cost"]) >= budget),
+                     z3.BoolVal(kinds == ["evaluating", "predict", "get_pareto_set"] and isinstance(calls[1][1], Opaque) and calls[1][1].term.eq(pts.term)
+                                and isinstance(calls[2][1], Opaque) and calls[2][1].term.eq(mu.term)))
+        return z3.And(z3.Implies(done0, idle), z3.Implies(z3.Not(done0), act))
+    t.prove_paths("done_iff_budget_reached_noop_after_completion_P_is_pareto_set_of_predictive_means", paths, goal)
